@@ -581,4 +581,55 @@ theorem wordBits_length (ws : List Nat) : (wordBits ws).length = 64 * ws.length 
   | nil => rfl
   | cons w ws ih => simp [wordBits] at ih ⊢; omega
 
+theorem le_getLastD_of_sorted : ∀ (l : List Nat), l.Pairwise (· < ·) → ∀ v ∈ l, v ≤ l.getLastD 0
+  | [], _, v, hv => by simp at hv
+  | [a], _, v, hv => by simp at hv; subst hv; simp
+  | a :: b :: rest, hp, v, hv => by
+    have ih := le_getLastD_of_sorted (b :: rest) (pairwise_cons.mp hp).2
+    have hlast : (a :: b :: rest).getLastD 0 = (b :: rest).getLastD 0 := by simp [List.getLastD_cons]
+    rw [hlast]
+    rcases List.mem_cons.mp hv with rfl | hv
+    · have h1 := (pairwise_cons.mp hp).1 b (by simp)
+      have h2 := ih b (by simp)
+      omega
+    · exact ih v hv
+
+/-- reading the select cache through its `CompactBitList` -/
+theorem selectsBL_get (B : Nat → Bool) (ws : List Nat) (hp : Packs ws B)
+    (hfalse : ∀ q, 64 * ws.length ≤ q → B q = false) (h0 : B 0 = false)
+    (i : Nat) (hi : i < onesUpTo B (64 * ws.length)) :
+    ∃ s, (BitList.ofList (len64 ((selectsOf (wordBits ws)).getLastD 0)) (selectsOf (wordBits ws))).get (i / 64) = some s ∧
+      B s = true ∧ onesUpTo B s = 64 * (i / 64) := by
+  have hfn : bitFn (wordBits ws) = B := by
+    funext q
+    rw [wordBits_getD]
+    by_cases hq : q / 64 < ws.length
+    · rw [if_pos hq, hp (q / 64) hq (q % 64) (Nat.mod_lt _ (by decide))]
+      congr 1; omega
+    · rw [if_neg hq, hfalse q (by omega)]
+  have hok := selectsOf_ok (wordBits ws)
+  rw [hfn, wordBits_length] at hok
+  generalize selectsOf (wordBits ws) = S at hok
+  have hlen := hok.len
+  have hm : i / 64 < S.length := by rw [hlen]; omega
+  have h0len : 0 < S.length := by omega
+  obtain ⟨e1, e2, _⟩ := hok.entry (i / 64) hm
+  rw [List.getElem!_eq_getElem?_getD, List.getElem?_eq_getElem hm] at e1 e2
+  simp only [Option.getD_some] at e1 e2
+  -- first entry is not position 0, so the last entry is positive
+  obtain ⟨f1, _, _⟩ := hok.entry 0 h0len
+  rw [List.getElem!_eq_getElem?_getD, List.getElem?_eq_getElem h0len] at f1
+  simp only [Option.getD_some] at f1
+  have hfirst : 1 ≤ S[0] := by
+    rcases Nat.eq_zero_or_pos S[0] with h | h
+    · rw [h, h0] at f1; exact absurd f1 (by simp)
+    · exact h
+  have hlastpos : 0 < S.getLastD 0 := by
+    have := le_getLastD_of_sorted S hok.sorted S[0] (List.getElem_mem h0len)
+    omega
+  have hall : ∀ v ∈ S, v < 2 ^ len64 (S.getLastD 0) :=
+    fun v hv => lt_two_pow_len64 (le_getLastD_of_sorted S hok.sorted v hv)
+  refine ⟨S[i / 64], ?_, e1, e2⟩
+  exact BitList.ofList_get _ S (len64_pos hlastpos) hall (i / 64) hm
+
 end DaeVerif.C11
